@@ -16,7 +16,7 @@ from ..core import sstr, Failure, drive
 ID = "C19"
 LEVEL = "exploration"
 DESIGN_REF = "DESIGN.md section 3, C19"
-TECHNIQUE = "model-based operation sequences (Hypothesis-generated histories of Program constructions, class definitions and imports over generated library packages) compared with a names->module model and a fresh-process differential"
+TECHNIQUE = "model-based stateful testing: a Hypothesis RuleBasedStateMachine and Hypothesis-generated operation lists over Program constructions, class definitions and imports on generated library packages, compared with a names->module model and a fresh-process differential"
 LEVEL_TEXT = (
     "Small library packages with prefix-related names (lib, lib_extra, libx, lib.sub, other) and clashing command names "
     "are generated on disk; histories of up to 10 steps construct Programs for arbitrary subsets and orders of them and "
@@ -135,87 +135,185 @@ def baseline():
         _BASELINE["done"] = True
 
 
-def check_history(case, rec):
-    from mpilot.commands import Command, CommandMeta
+class Runner(object):
+    """Interprets one history step by step against the model (used by the operation-list check and by the
+    Hypothesis state machine alike)."""
 
-    baseline()
+    def __init__(self, libs):
+        from mpilot.commands import CommandMeta
 
-    libs = case["libs"]
-    root = tempfile.mkdtemp(prefix="vcheck-c19-")
-    snap = set(CommandMeta._commands)
-    mods_before = set(sys.modules)
-    sys.path.insert(0, root)
-    importlib.invalidate_caches()
-    fails = []
-    earlier = []
-    try:
-        write_libs(root, libs)
-        for si, step in enumerate(case["steps"]):
-            op = step[0]
-            if op == "define":
-                _, module, cname = step
-                try:
-                    type(str(cname), (Command,), {"__module__": module, "inputs": {}, "execute": lambda self, **kw: None})
-                except Exception as exc:
-                    fails.append(Failure("define_raises:%s" % type(exc).__name__, repr(exc)))
-                    break
-                earlier.append("define:" + module)
-                continue
-            if op == "import":
-                importlib.import_module(step[1] + ".cmds")
-                earlier.append("import:" + step[1])
-                continue
-            requested = step[1]
-            if not requested:
-                continue
-            table, dup = expected(libs, requested)
-            status, got = observed(requested)
-            related = [e for e in earlier if any(
-                e.split(":", 1)[1].startswith(r) or r.startswith(e.split(":", 1)[1]) for r in requested)]
-            hist = "prefix_or_clash_history" if related else ("some_history" if earlier else "first")
-            rec.label("construct:" + hist)
-            if related:
-                rec.nontrivial_case(case)
-                rec.label("nontrivial", sample=case if len(case["steps"]) <= 3 else None)
-            if dup:
-                rec.label("clash_expected")
-                if status != "error":
-                    fails.append(Failure("clash_not_reported|%s" % hist, "requested %r: %r are defined twice; history %r" % (requested, sorted(dup), earlier)))
-                    break
-            elif status == "error":
-                fails.append(Failure("spurious_error|%s" % hist, "requested %r after %r: %s" % (requested, earlier, got[:200])))
-                break
-            elif got != table:
-                extra = {k: v for k, v in got.items() if table.get(k) != v}
-                missing = {k: v for k, v in table.items() if k not in got}
-                kind = "foreign_commands" if extra else "missing_commands"
-                fails.append(Failure("%s|%s" % (kind, hist), "requested %r after %r: unexpected %r, missing %r" % (
-                    requested, earlier, extra, missing)))
-                break
-            if step[0] == "construct_fresh":
-                env = dict(os.environ)
-                out = subprocess.run([sys.executable, "-c", FRESH, root, json.dumps(requested)], capture_output=True,
-                                     text=True, env=env, timeout=120)
-                rec.label("fresh_process_differential")
-                try:
-                    fstatus, fgot = json.loads(out.stdout.strip().splitlines()[-1])
-                except Exception:
-                    fails.append(Failure("fresh_process_failed", out.stderr[-300:]))
-                    break
-                if fstatus != status or (status == "ok" and fgot != got):
-                    fails.append(Failure("differs_from_fresh_process|%s" % hist, "requested %r after %r" % (requested, earlier)))
-                    break
-            earlier.append("construct:" + ",".join(requested))
-    finally:
-        sys.path.remove(root)
-        for m in set(sys.modules) - mods_before:
+        baseline()
+        self.libs = libs
+        self.root = tempfile.mkdtemp(prefix="vcheck-c19-")
+        self.snap = set(CommandMeta._commands)
+        self.mods_before = set(sys.modules)
+        sys.path.insert(0, self.root)
+        importlib.invalidate_caches()
+        self.earlier = []
+        self.closed = False
+        write_libs(self.root, libs)
+
+    def close(self):
+        from mpilot.commands import CommandMeta
+
+        if self.closed:
+            return
+        self.closed = True
+        if self.root in sys.path:
+            sys.path.remove(self.root)
+        for m in set(sys.modules) - self.mods_before:
             if m.split(".")[0] in ("lib", "lib_extra", "libx", "lib_sub", "libxsub", "other", "li"):
                 del sys.modules[m]
         CommandMeta._commands.clear()
-        CommandMeta._commands.update(snap)
+        CommandMeta._commands.update(self.snap)
         importlib.invalidate_caches()
-        shutil.rmtree(root, ignore_errors=True)
-    return fails
+        shutil.rmtree(self.root, ignore_errors=True)
+
+    def step(self, step, rec, case=None):
+        from mpilot.commands import Command
+
+        libs, earlier = self.libs, self.earlier
+        op = step[0]
+        if op == "define":
+            _, module, cname = step
+            try:
+                type(str(cname), (Command,), {"__module__": module, "inputs": {}, "execute": lambda self, **kw: None})
+            except Exception as exc:
+                return [Failure("define_raises:%s" % type(exc).__name__, repr(exc))]
+            earlier.append("define:" + module)
+            return []
+        if op == "import":
+            importlib.import_module(step[1] + ".cmds")
+            earlier.append("import:" + step[1])
+            return []
+        requested = step[1]
+        if not requested:
+            return []
+        table, dup = expected(libs, requested)
+        status, got = observed(requested)
+        related = [e for e in earlier if any(
+            e.split(":", 1)[1].startswith(r) or r.startswith(e.split(":", 1)[1]) for r in requested)]
+        hist = "prefix_or_clash_history" if related else ("some_history" if earlier else "first")
+        rec.label("construct:" + hist)
+        if related and case is not None:
+            rec.nontrivial_case(case)
+            rec.label("nontrivial", sample=case if len(case["steps"]) <= 3 else None)
+        if dup:
+            rec.label("clash_expected")
+            if status != "error":
+                return [Failure("clash_not_reported|%s" % hist, "requested %r: %r are defined twice; history %r" % (requested, sorted(dup), earlier))]
+        elif status == "error":
+            return [Failure("spurious_error|%s" % hist, "requested %r after %r: %s" % (requested, earlier, got[:200]))]
+        elif got != table:
+            extra = {k: v for k, v in got.items() if table.get(k) != v}
+            missing = {k: v for k, v in table.items() if k not in got}
+            kind = "foreign_commands" if extra else "missing_commands"
+            return [Failure("%s|%s" % (kind, hist), "requested %r after %r: unexpected %r, missing %r" % (
+                requested, earlier, extra, missing))]
+        if step[0] == "construct_fresh":
+            out = subprocess.run([sys.executable, "-c", FRESH, self.root, json.dumps(requested)], capture_output=True,
+                                 text=True, env=dict(os.environ), timeout=120)
+            rec.label("fresh_process_differential")
+            try:
+                fstatus, fgot = json.loads(out.stdout.strip().splitlines()[-1])
+            except Exception:
+                return [Failure("fresh_process_failed", out.stderr[-300:])]
+            if fstatus != status or (status == "ok" and fgot != got):
+                return [Failure("differs_from_fresh_process|%s" % hist, "requested %r after %r" % (requested, earlier))]
+        earlier.append("construct:" + ",".join(requested))
+        return []
+
+
+def check_history(case, rec):
+    runner = Runner(case["libs"])
+    try:
+        for step in case["steps"]:
+            fails = runner.step(step, rec, case)
+            if fails:
+                return fails
+    finally:
+        runner.close()
+    return []
+
+
+def run_state_machine(ctx, rec, n_examples):
+    """The same model as a Hypothesis rule-based state machine: rules are the step kinds, the model check runs
+    inside every rule, the whole rule sequence shrinks as one value; the trace of the final (minimal) failing run is
+    saved as an ordinary history case, so it replays through check_history without Hypothesis."""
+    import copy
+
+    from hypothesis import HealthCheck, seed as hseed, settings
+    from hypothesis.stateful import RuleBasedStateMachine, initialize, rule, run_state_machine_as_test
+
+    from ..core import _Violation
+
+    tag = "history/state_machine"
+    session = set()
+    remaining = n_examples
+    rnd = 0
+    while remaining > 0 and len(session) < 3:
+        holder = {"last": None, "runs": 0}
+
+        class Registry(RuleBasedStateMachine):
+            def __init__(self):
+                super(Registry, self).__init__()
+                self.runner = None
+                self.trace = None
+
+            @initialize(chosen=st.lists(st.sampled_from(GEN_LIBS), min_size=2, max_size=5, unique=True), data=st.data())
+            def setup(self, chosen, data):
+                if "lib.sub" in chosen and "lib" not in chosen:
+                    chosen = chosen + ["lib"]
+                libs = {l: data.draw(st.lists(st.sampled_from(CMD_NAMES), min_size=1, max_size=3, unique=True)) for l in chosen}
+                self.runner = Runner(libs)
+                self.trace = {"libs": libs, "steps": []}
+                holder["runs"] += 1
+                rec.evaluated()
+
+            def _do(self, step):
+                self.trace["steps"].append(step)
+                fails = self.runner.step(step, rec, self.trace)
+                novel = [f for f in fails if f.signature not in session and not rec.is_known(f)]
+                if novel:
+                    holder["last"] = (copy.deepcopy(self.trace), novel[0])
+                    raise _Violation(novel[0].signature)
+
+            @rule(picks=st.lists(st.integers(0, 50), min_size=1, max_size=4, unique=True), builtin=st.booleans())
+            def construct(self, picks, builtin):
+                pool = list(self.runner.libs) + (list(BUILTIN) if builtin else [])
+                req = []
+                for k in picks:
+                    if pool[k % len(pool)] not in req:
+                        req.append(pool[k % len(pool)])
+                self._do(["construct", req])
+
+            @rule(module=st.sampled_from(ELSEWHERE), cname=st.sampled_from(CMD_NAMES + ["Sum", "EEMSRead", "Other"]))
+            def define_class_elsewhere(self, module, cname):
+                self._do(["define", module, cname])
+
+            @rule(k=st.integers(0, 50))
+            def import_library_normally(self, k):
+                names = list(self.runner.libs)
+                self._do(["import", names[k % len(names)]])
+
+            def teardown(self):
+                if self.runner is not None:
+                    self.runner.close()
+
+        machine = hseed(ctx.hseed(tag, rnd))(Registry)
+        try:
+            run_state_machine_as_test(machine, settings=settings(
+                max_examples=remaining, stateful_step_count=10, database=None, deadline=None,
+                suppress_health_check=list(HealthCheck), report_multiple_bugs=False, print_blob=False))
+            rec.parts[tag] += holder["runs"]
+            remaining = 0
+        except _Violation:
+            trace, failure = holder["last"]
+            session.add(failure.signature)
+            rec.add_failure(failure, trace, "history")
+            rec.parts[tag] += holder["runs"]
+            remaining -= max(1, min(holder["runs"], remaining // 2))
+            rnd += 1
 
 
 @st.composite
@@ -248,3 +346,4 @@ PARTS = {"history": check_history}
 
 def run_shard(ctx, rec):
     drive(ctx, rec, "history", histories(), check_history, ctx.n(2400, 60000))
+    run_state_machine(ctx, rec, ctx.n(800, 20000))
